@@ -1335,8 +1335,10 @@ impl ProtocolState {
                     let keep = policy_keeps(*op.packet, pre.config.offline_queue_policy);
                     let dup = (*op.packet matches MqttPacket::Publish(publish) && publish.duplicate);
                     let rel = is_qos_publish(*op.packet, QualityOfService::ExactlyOnce) && (op.qos2_pubrel is Some);
-                    // a half-written retransmission goes back to the FRONT of the retransmission queue
-                    &&& (dup ==> post.resubmit_operation_queue@ == seq![id] + pre.resubmit_operation_queue@ && tables_unchanged(pre, post)
+                    let in_flight = pre.pending_publish_operations@.contains_key(packet_id_field(*op.packet));
+                    // a half-written retransmission goes back to the FRONT of the retransmission queue - exactly once: if it is
+                    // still in the in-flight table (its PUBREL was being written) that table re-queues it, so it is not queued here
+                    &&& (dup ==> post.resubmit_operation_queue@ == (if in_flight { pre.resubmit_operation_queue@ } else { seq![id] + pre.resubmit_operation_queue@ }) && tables_unchanged(pre, post)
                             && post.user_operation_queue@ == pre.user_operation_queue@ && post.high_priority_operation_queue@ == pre.high_priority_operation_queue@)
                     // a half-written PUBREL stays a PUBREL (never re-queued as a fresh publish)
                     &&& (!dup && rel ==> post.high_priority_operation_queue@ == seq![id] + pre.high_priority_operation_queue@ && tables_unchanged(pre, post)
